@@ -47,6 +47,9 @@ type Sx struct {
 	// Unknown: library calls without a model whose result was made opaque.
 	Unknown []string
 	Assumed []string // data-dependent branches followed away from an error exit
+	// Trace: selected library calls in execution order, each with the assumptions
+	// in force when it ran (rules check that a guard precedes a call).
+	Trace []string
 
 	globals   map[*ssa.Global]*sxNode
 	freshSeen map[string]int
@@ -81,6 +84,29 @@ type sxBool struct {
 
 // sxStr is a string, or an immutable byte string of possibly unknown length.
 type sxStr struct{ T *Tm }
+
+// sxDyn is a freshly allocated byte buffer whose length is not a constant
+// (make([]byte, len(x))): it can be read as a whole and overwritten as a whole
+// (CryptBlocks, copy of a value of the same length); anything finer stops the run.
+type sxDyn struct{ B *sxDynBuf }
+
+type sxDynBuf struct {
+	T      *Tm  // content
+	Len    *Tm  // length (an integer term)
+	viewed bool // a window or element address of it was taken: overwriting would not reach the view
+}
+
+// asStr: a read-only view of a string-like value.
+func asStr(v sxVal) (sxStr, bool) {
+	switch x := v.(type) {
+	case sxStr:
+		return x, true
+	case sxDyn:
+		x.B.viewed = true
+		return sxStr{x.B.T}, true
+	}
+	return sxStr{}, false
+}
 
 // sxSlice is a window of an array of concrete size.
 type sxSlice struct {
@@ -180,6 +206,9 @@ func (sx *Sx) laneName(b lanes.Bit) string {
 func (sx *Sx) byteOf(t *Tm, i int) lanes.Vec {
 	switch t.Op {
 	case "const":
+		if i < 0 || i >= len(t.S) {
+			sx.stop("byte %d of a %d-byte constant", i, len(t.S))
+		}
 		return lanes.ConstVec(big.NewInt(int64(t.S[i])), 8)
 	case "bits":
 		return t.V
@@ -398,6 +427,8 @@ func (sx *Sx) bytesTerm(v sxVal) (*Tm, bool) {
 	switch x := v.(type) {
 	case sxStr:
 		return x.T, true
+	case sxDyn:
+		return x.B.T, true
 	case sxSlice:
 		if x.Nil {
 			return TmConst(""), true
@@ -1153,7 +1184,11 @@ func (fr *sxFrame) eval(v ssa.Value) sxVal {
 		return sxOpaque{"field of an opaque struct"}
 	case *ssa.IndexAddr:
 		idx := fr.intIdx(x.Index, "index "+x.Index.Name())
-		switch p := fr.get(x.X).(type) {
+		base := fr.get(x.X)
+		if d, isDyn := base.(sxDyn); isDyn {
+			base, _ = asStr(d)
+		}
+		switch p := base.(type) {
 		case sxPtr:
 			if p.N == nil || p.N.Kids == nil {
 				sx.stop("%s: element address through a nil or unmodelled array pointer", fr.fn.Name())
@@ -1227,7 +1262,8 @@ func (fr *sxFrame) eval(v ssa.Value) sxVal {
 		case isByteType(et):
 			// make([]byte, n) for a length that is not a constant: n zero bytes
 			li, _ := fr.get(x.Len).(sxInt)
-			return sxStr{&Tm{Op: "rep", S: "\x00", A: []*Tm{sx.intTerm(li)}}}
+			n := sx.intTerm(li)
+			return sxDyn{&sxDynBuf{T: &Tm{Op: "rep", S: "\x00", A: []*Tm{n}}, Len: n}}
 		}
 		sx.stop("%s: make with a length that is not a constant on this path", fr.fn.Name())
 	case *ssa.Slice:
@@ -1290,6 +1326,12 @@ func (sx *Sx) prefixKnown(t *Tm, n int) bool {
 func (fr *sxFrame) slice(x *ssa.Slice) sxVal {
 	sx := fr.sx
 	base := fr.get(x.X)
+	if d, isDyn := base.(sxDyn); isDyn {
+		if x.Low == nil && x.High == nil {
+			return d // buf[:] is the buffer itself
+		}
+		base, _ = asStr(d)
+	}
 	// a window of an immutable value whose bounds are not constants (s[:len(s)-4])
 	if bs, isStr := base.(sxStr); isStr {
 		var loT, hiT *Tm
@@ -1487,6 +1529,13 @@ func (fr *sxFrame) convert(x *ssa.Convert) sxVal {
 		if isBS(dst) {
 			return s
 		}
+	case sxDyn:
+		if isStr(dst) {
+			return sxStr{s.B.T} // string(b) copies
+		}
+		if isBS(dst) {
+			return s
+		}
 	case sxOpaque:
 		return sxOpaque{"conversion of " + s.Why}
 	}
@@ -1556,7 +1605,7 @@ func (fr *sxFrame) binop(x *ssa.BinOp) sxVal {
 			}
 		}
 		return sxBool{Why: av.T.Short() + " " + x.Op.String() + " " + bs.T.Short()}
-	case sxIface, sxPtr, sxSlice, sxFunc:
+	case sxIface, sxPtr, sxSlice, sxFunc, sxDyn:
 		if x.Op == token.EQL || x.Op == token.NEQ {
 			an, aok := sxIsNil(a)
 			bn, bok := sxIsNil(b)
@@ -1607,7 +1656,7 @@ func sxIsNil(v sxVal) (bool, bool) {
 		return x.Nil, true
 	case sxFunc:
 		return x.Fn == nil && x.Name == "", true
-	case sxStr:
+	case sxStr, sxDyn:
 		return false, true // a non-nil byte string
 	}
 	return false, false
@@ -1628,6 +1677,11 @@ func (sx *Sx) global(g *ssa.Global) *sxNode {
 	n := &sxNode{T: et, Leaf: sxOpaque{"package-level variable " + g.Name()}, ro: true}
 	sx.globals[g] = n
 	if g.Pkg == nil || !strings.HasPrefix(g.Pkg.Pkg.Path(), sx.E.P.ModPath) {
+		// a variable of a dependency (base64.StdEncoding, rand.Reader): a named
+		// library object, trusted not to be reassigned
+		if g.Pkg != nil {
+			n.Leaf = sxObj{&sxObject{Kind: "ext", Ctor: g.Pkg.Pkg.Path() + "." + g.Name()}}
+		}
 		return n
 	}
 	if st, ok := et.Underlying().(*types.Struct); ok && st.NumFields() == 0 {
